@@ -294,7 +294,101 @@ func swarmOracle(r *rand.Rand, n int, tier string, infile string) (cases int, fa
 	}
 	udpCtxCase(bad)
 	cases++
+	transformCase(bad)
+	cases++
+	for _, tpl := range templates {
+		if tier == "quick" && !tpl.reliable && closeDuringDone[tpl.name] {
+			continue
+		}
+		closeDuringDone[tpl.name] = true
+		closeDuringCallbackCase(tpl, bad)
+		cases++
+	}
 	return cases, fails
+}
+
+var closeDuringDone = map[string]bool{}
+
+// closeDuringCallbackCase: Close is called while one receiver's callback is still running. The OTHER receivers that
+// were blocked must return an error promptly all the same (C12 does not let them wait for somebody else's callback,
+// which may never return); when the callback returns, Close and that Receive finish.
+func closeDuringCallbackCase(tpl template, bad func(string, ...any)) {
+	memCloseErr = false
+	nodes, err := tpl.build(2, 77)
+	if err != nil {
+		return
+	}
+	name := tpl.name
+	defer func() {
+		for _, n := range nodes {
+			go n.close()
+		}
+	}()
+	addrs := nodes[1].tell.LocalAddrs()
+	if len(addrs) == 0 {
+		return
+	}
+	hold := make(chan struct{})
+	entered := make(chan struct{}, 1)
+	type ret struct {
+		who int
+		err error
+	}
+	rets := make(chan ret, 3)
+	for who := 0; who < 3; who++ {
+		who := who
+		go func() {
+			err := nodes[1].tell.Receive(context.Background(), func(p2p.Message[p2p.Addr]) {
+				select {
+				case entered <- struct{}{}:
+				default:
+				}
+				<-hold
+			})
+			rets <- ret{who, err}
+		}()
+	}
+	time.Sleep(20 * time.Millisecond)
+	in := false
+	for try := 0; try < 20 && !in; try++ {
+		tctx, cf := context.WithTimeout(context.Background(), time.Second)
+		nodes[0].tell.Tell(tctx, addrs[0], p2p.IOVec{[]byte("held")})
+		cf()
+		select {
+		case <-entered:
+			in = true
+		case <-time.After(150 * time.Millisecond):
+		}
+	}
+	if !in {
+		close(hold)
+		return // nothing got through (handshake or socket trouble): inconclusive
+	}
+	closed := make(chan struct{})
+	go func() { nodes[1].close(); close(closed) }()
+	returned := 0
+	deadline := time.After(1500 * time.Millisecond)
+wait:
+	for returned < 2 {
+		select {
+		case r := <-rets:
+			if r.err == nil {
+				bad("C12 %s: a Receive that was blocked when Close was called returned nil", name)
+			}
+			returned++
+		case <-deadline:
+			break wait
+		}
+	}
+	if returned < 2 {
+		bad("C12 %s: Close was called while another receiver's callback was running: %d of the 2 other blocked Receive calls are still blocked 1.5 s later (they wait for a callback that is not theirs)", name, 2-returned)
+	}
+	close(hold)
+	select {
+	case <-closed:
+	case <-time.After(3 * time.Second):
+		bad("C12 %s: Close did not return within 3 s after the last callback had returned", name)
+	}
 }
 
 // udpCtxCase: udpswarm.Receive with a cancelled context (C13; recorded known finding)
@@ -653,6 +747,48 @@ func askCase(r *rand.Rand, name string, nodes []node, addrs []p2p.Addr, ctx cont
 		cf()
 		if !p2p.IsErrMTUExceeded(err) {
 			bad("C09 %s: Ask with a request of MTU()+1=%d bytes is not refused with the MTU error: %v", name, mtu+1, err)
+		}
+	}
+}
+
+// transformCase: an in-memory realm whose TellTransform rewrites payloads in flight (a bit-error injector). The
+// receiver sees the rewritten bytes; the SENDER's buffers are still what it passed to Tell (C01: "none of the buffers
+// in v will be modified"), for vectors of one, several and no segments, with and without spare capacity.
+func transformCase(bad func(string, ...any)) {
+	realm := memswarm.NewRealm(memswarm.WithQueueLen(16), memswarm.WithTellTransform(func(m *memswarm.Message) bool {
+		for i := range m.Payload {
+			m.Payload[i] ^= 0xff
+		}
+		return true
+	}))
+	a, b := realm.NewSwarm(), realm.NewSwarm()
+	defer a.Close()
+	defer b.Close()
+	ctx, cf := context.WithTimeout(context.Background(), 3*time.Second)
+	defer cf()
+	for _, segs := range [][]string{{"hello world"}, {"head:", "body"}, {}, {"x"}, {"", "tail"}} {
+		v := make(p2p.IOVec, 0, len(segs)+2)
+		var keep [][]byte
+		for _, s := range segs {
+			v = append(v, []byte(s))
+			keep = append(keep, []byte(s))
+		}
+		if err := a.Tell(ctx, b.LocalAddrs()[0], v); err != nil {
+			continue
+		}
+		var got []byte
+		b.Receive(ctx, func(m p2p.Message[memswarm.Addr]) { got = append([]byte{}, m.Payload...) })
+		for i := range keep {
+			if !bytes.Equal(v[i], keep[i]) {
+				bad("C01 memswarm with a TellTransform: Tell modified segment %d of the sender's vector %q (now %x)", i, segs, v[i])
+			}
+		}
+		want := []byte(strings.Join(segs, ""))
+		for i := range want {
+			want[i] ^= 0xff
+		}
+		if !bytes.Equal(got, want) {
+			bad("C01 memswarm with a TellTransform: receiver got %x for %q, the transform produces %x", got, segs, want)
 		}
 	}
 }
